@@ -208,6 +208,14 @@ static DBusHandlerResult server_filter(DBusConnection *c, DBusMessage *m, void *
   return DBUS_HANDLER_RESULT_NOT_YET_HANDLED;
 }
 
+static dbus_bool_t unix_user_cb(DBusConnection *c, unsigned long uid, void *data) {
+  (void)c;
+  LibWorld *w = (LibWorld *)data;
+  bool ok = w->unix_user_fn ? w->unix_user_fn(uid) : false;
+  w->tr.ev("app: unix user function uid=%lu -> %d", uid, (int)ok);
+  return ok;
+}
+
 static void new_connection(DBusServer *server, DBusConnection *c, void *data) {
   (void)server;
   LibWorld *w = (LibWorld *)data;
@@ -222,6 +230,7 @@ static void new_connection(DBusServer *server, DBusConnection *c, void *data) {
   if (w->max_message_size >= 0) dbus_connection_set_max_message_size(c, w->max_message_size);
   if (w->max_received_size >= 0) dbus_connection_set_max_received_size(c, w->max_received_size);
   dbus_connection_set_allow_anonymous(c, w->counters.count("allow_anonymous") != 0);
+  if (w->unix_user_fn) dbus_connection_set_unix_user_function(c, unix_user_cb, w, nullptr);
   if (!dbus_connection_add_filter(c, server_filter, nullptr, nullptr)) harness_error("add_filter OOM");
   if (!setup_connection(w->loop, c)) harness_error("setup_connection OOM");
   w->sconns.push_back(sc);
